@@ -192,6 +192,13 @@ func (s *Spec) PlantAll(r *rand.Rand) []Planted {
 				pos = 0 // the last parameter of a variadic provider stays last
 			}
 			pa.Params = append(pa.Params[:pos], append([]int{c.t}, pa.Params[pos:]...)...)
+			if len(pa.ParamSpell) > 0 {
+				// per-parameter spellings stay aligned with the parameters
+				for len(pa.ParamSpell) < len(pa.Params)-1 {
+					pa.ParamSpell = append(pa.ParamSpell, "")
+				}
+				pa.ParamSpell = append(pa.ParamSpell[:pos], append([]string{""}, pa.ParamSpell[pos:]...)...)
+			}
 			seenKind[c.kind]++
 			if !cl.Interpret(cl.Injectors[0]).Valid() {
 				out = append(out, Planted{Spec: cl, Kind: c.kind, Names: [][]string{provNames(cl, c.a), provNames(cl, c.b)},
@@ -280,7 +287,24 @@ func (s *Spec) PlantAll(r *rand.Rand) []Planted {
 	if len(fn) > 0 {
 		for variant := 0; variant < 2; variant++ {
 			cl := s.Clone()
-			pid := fn[r.Intn(len(fn))]
+			// a provider of ordinary named types (a raw alias type may be named
+			// by its target in the diagnostic)
+			var plain []int
+			for _, f := range fn {
+				ok := true
+				for _, t := range s.Provs[f].Results {
+					if s.Types[t].Kind == KRaw {
+						ok = false
+					}
+				}
+				if ok {
+					plain = append(plain, f)
+				}
+			}
+			if len(plain) == 0 {
+				break
+			}
+			pid := plain[r.Intn(len(plain))]
 			setName := cl.nextTypeName("SharedSet")
 			cl.Sets = append(cl.Sets, &SetDef{Name: setName, Items: []Item{{Prov: pid}}, File: cl.Injectors[0].File})
 			in := cl.Injectors[0]
